@@ -797,11 +797,24 @@ impl PaZipCompressor {
         
         let candidate = self.dictionary.find_longest_match(remaining, 0, max_length)?;
         // The Global token carries a 16-bit dictionary offset and a 16-bit length: only keep what it can represent.
+        // Never trust the matcher blindly: keep only the prefix that really is in the dictionary.
+        let min_len = self.dictionary.config().min_pattern_length.max(1);
+        let dict_text = self.dictionary.dictionary_text();
         Ok(candidate.and_then(|mut m| {
-            if m.dict_position > u16::MAX as usize {
+            if m.dict_position > u16::MAX as usize || m.dict_position >= dict_text.len() {
                 return None;
             }
             m.length = m.length.min(u16::MAX as usize);
+            let verified = dict_text[m.dict_position..]
+                .iter()
+                .zip(remaining.iter())
+                .take(m.length)
+                .take_while(|(a, b)| a == b)
+                .count();
+            if verified < min_len {
+                return None;
+            }
+            m.length = verified;
             Some(m)
         }))
     }
